@@ -15,8 +15,8 @@ TECHNIQUE = ("TLA+ specification of a reorder buffer (accept / complete-in-any-o
              "the sequence of Top-port answers (kind, RspTo, Dst, data) is compared with the specification's")
 LEVEL_TEXT = ("exhaustive over completion orders for <= 4 (5 without pauses) outstanding requests, buffer sizes 1..5, all read/write mixes, one "
               "or two requesters; plus seeded random runs with buffer sizes up to 64 and hundreds of requests")
-LEVEL_NOTE = ("Port buffer sizes, NumReqPerCycle and pause lengths of the assembly are drawn from the seed. The control port "
-              "(pause/drain/reset) is not exercised here. The lower unit's completion order is imposed exactly; the instants "
+LEVEL_NOTE = ("Port buffer sizes, NumReqPerCycle and pause lengths of the assembly are drawn from the seed. Of the control port "
+              "only one Reset per behaviour is exercised (pause/drain are C18's). The lower unit's completion order is imposed exactly; the instants "
               "at which the reorder buffer accepts requests are its own.")
 
 
@@ -37,17 +37,27 @@ def expected_from_spec(b):
 
 
 def expected_from_observation(res):
-    """ROB.tla's Release/Answer applied to what was observed: the k-th accepted request is answered k-th, once the
-    lower unit has completed it, with its own kind, requester and the lower unit's result for it."""
+    """ROB.tla's Release/Answer/Reset applied to what was observed: the k-th accepted request is answered k-th, once the
+    lower unit has completed it, with its own kind, requester and the lower unit's result for it; a reset drops the
+    accepted requests that had not been answered when it was acknowledged (they are never answered, whatever the lower
+    unit delivers for them later), the requests accepted afterwards are answered in order again."""
     done = {l["req"]: l for l in res.get("lower") or [] if l["req"] > 0 and l["pos"] > 0}
-    out = []
-    for i, acc in enumerate(res.get("accepted") or [], start=1):
-        if i not in done:
-            break
-        rd = acc["kind"] == "read"
-        out.append({"req": i, "kind": acc["kind"], "to": acc["who"], "data_req": i if rd else -1,
-                    "data_pos": done[i]["pos"] if rd else 0})
-    return out
+    acc = res.get("accepted") or []
+
+    def answers(first, last):
+        out = []
+        for i in range(first, last + 1):
+            if i not in done:
+                break
+            a = acc[i - 1]
+            rd = a["kind"] == "read"
+            out.append({"req": i, "kind": a["kind"], "to": a["who"], "data_req": i if rd else -1,
+                        "data_pos": done[i]["pos"] if rd else 0})
+        return out
+    r = res.get("reset_acc") or 0
+    if not r:
+        return answers(1, len(acc))
+    return answers(1, r)[:res.get("reset_ans") or 0] + answers(r + 1, len(acc))
 
 
 def first_difference(exp, got):
@@ -84,12 +94,20 @@ def judge(ck, case, res, spec_beh, stats):
     exp = mirrored
     if spec_beh is not None and not res["deviated"]:
         acc = res.get("accepted") or []
-        if [a["kind"] for a in acc] == spec_beh["kinds"] and [a["who"] for a in acc] == spec_beh["who"]:
+        resets = [st for st in spec_beh["script"] if st["op"] == "reset"]
+        same_reset = True
+        if resets:      # the real run dropped exactly the requests the behaviour drops
+            r = resets[0]["arrived"]
+            same_reset = (res.get("reset_ok") and res.get("reset_acc") == r and
+                          res.get("reset_ans") == sum(1 for a in spec_beh["answers"] if a["req"] <= r))
+        if same_reset and [a["kind"] for a in acc] == spec_beh["kinds"] and [a["who"] for a in acc] == spec_beh["who"]:
             exp = expected_from_spec(spec_beh)
             stats["spec_oracle"] += 1
             if exp != mirrored and len(mirrored) == len(exp):
                 raise core.Broken("the lower unit did not follow the script although it reports no deviation: %s vs %s" % (exp, mirrored))
-    if res["deviated"]:
+        else:
+            stats["deviated"] += 1
+    elif res["deviated"]:
         stats["deviated"] += 1
     stats["answers"] += len(got)
     if any(not l["same"] for l in res.get("lower") or [] if l["req"] > 0) or any(l["req"] == 0 for l in res.get("lower") or []):
@@ -122,9 +140,10 @@ def run_cases(ck, cases):
 def run(ck):
     quick = ck.tier == "quick"
     # quick: 4 requests / sizes 1..4 / no pauses, and 3 requests / sizes 1..3 / optional pauses / both requester patterns;
-    # thorough: 4 requests / sizes 1..4 / pauses / alternating requesters, 5 requests / sizes 3,5 / no pauses, and the 3-request set
-    cfgs = ("ROB_q.cfg", "ROB_q3.cfg") if quick else ("ROB_t.cfg", "ROB_t5.cfg", "ROB_q3.cfg")
-    with concurrent.futures.ThreadPoolExecutor(max_workers=3) as ex:     # the two TLC runs are independent
+    # thorough: 4 requests / sizes 1..4 / pauses / alternating requesters, 5 requests / sizes 3,5 / no pauses, and the 3-request set;
+    # ROB_qr / ROB_tr: 4 requests with one reset of the buffer while requests are outstanding (late results of dropped requests)
+    cfgs = ("ROB_q.cfg", "ROB_q3.cfg", "ROB_qr.cfg") if quick else ("ROB_t.cfg", "ROB_t5.cfg", "ROB_q3.cfg", "ROB_tr.cfg")
+    with concurrent.futures.ThreadPoolExecutor(max_workers=4) as ex:     # the TLC runs are independent
         runs = list(ex.map(lambda cfg: core.tlc(["mem"], "ROB", cfg, workers=3 if quick else 5, timeout=240 if quick else 900), cfgs))
     behs = []
     for cfg, r in zip(cfgs, runs):
@@ -148,9 +167,12 @@ def run(ck):
                       "every answer must reach its requester. Random mode: the same oracle applied to the observed acceptance "
                       "and completion logs. Non-trivial = the lower unit completes at least one younger request before an older one.")
     ck.assumptions += [
-        "serial engine, 1 GHz, direct connections; port buffer sizes in {1,2,4}, NumReqPerCycle in {1,2,4} and pause "
+        "serial engine, 1 GHz, direct connections; port buffer sizes in {1,2,4} (Top outgoing {1,2,3}), NumReqPerCycle in {1,2,4} and pause "
         "lengths drawn from the seed",
-        "the control protocol (pause/drain/reset) of the reorder buffer is not used in these runs",
+        "of the control protocol only Reset is used (ROB_qr/ROB_tr behaviours): once, after the buffer has settled, with no "
+        "request in flight to the Top port; requests sent after it wait for its acknowledgment; pause/drain are not used",
+        "the requesters pick up answers either at once or slowly (every 2nd..4th cycle, one per port, seeded extra stalls); the "
+        "Top port's outgoing capacity is 1..3, so the buffer often has fewer free slots than heads ready to retire",
         "acceptance = the reorder buffer retrieving the request from its Top port; two requests on different requester "
         "ports are sent one after the other's acceptance so that the specification's numbering is the acceptance order",
         "a run in which the scripted completion order cannot be imposed (the buffer does not accept as many requests as "
@@ -162,8 +184,9 @@ def run(ck):
     cases = []
     for b in behs:
         cases.append(dict(cap=b["cap"], kinds=b["kinds"], who=b["who"], script=b["script"],
-                          width=ck.rng.choice((1, 2, 4)), top_buf=ck.rng.choice((1, 2, 4)), bottom_buf=ck.rng.choice((1, 2, 4)),
-                          agent_buf=ck.rng.choice((1, 2, 4)), quiet=ck.rng.choice((3, 8, 15))))
+                          width=ck.rng.choice((1, 2, 4)), top_buf=ck.rng.choice((1, 2, 4)), top_out=ck.rng.choice((1, 2, 3)),
+                          stall=ck.rng.choice((1, 1, 2, 3, 4)), stall_seed=ck.rng.randrange(1 << 30),
+                          bottom_buf=ck.rng.choice((1, 2, 4)), agent_buf=ck.rng.choice((1, 2, 4)), quiet=ck.rng.choice((3, 8, 15))))
     results = run_cases(ck, cases)
     nontrivial = 0
     for b, c, res in zip(behs, cases, results):
@@ -187,7 +210,8 @@ def run(ck):
         rcases.append(dict(cap=cap, kinds=[ck.rng.choice(("read", "write")) for _ in range(n)],
                            who=[ck.rng.choice("AB") for _ in range(n)], script=[], random=True,
                            seed=ck.rng.randrange(1 << 30), prob=ck.rng.choice((5, 15, 40, 80)) if i >= 3 else 3,
-                           width=ck.rng.choice((1, 2, 4)), top_buf=ck.rng.choice((1, 2, 4, 8)),
+                           width=ck.rng.choice((1, 2, 4)), top_buf=ck.rng.choice((1, 2, 4, 8)), top_out=ck.rng.choice((1, 2, 3, 8)),
+                           stall=ck.rng.choice((1, 2, 3)), stall_seed=ck.rng.randrange(1 << 30),
                            bottom_buf=ck.rng.choice((1, 2, 4, 8)), agent_buf=ck.rng.choice((2, 4, 8))))
     rresults = run_cases(ck, rcases)
     max_out = 0
